@@ -82,7 +82,7 @@ def execute(job):
             rec = child.run_command(ctx, step)
             after, contents = W.snapshot(paths, with_content=True)
             rec["diff"] = W.diff(snap, after, contents)
-            W.normalise_mtimes(paths)
+            W.normalise_mtimes(paths, touched=[k for k, v in after.items() if v[4]], now_ns=W.clock_ns(step.get("clock")))
             for v in after.values():
                 v[4] = False
             snap = after
